@@ -143,10 +143,12 @@ class EFloatFormat(EncodableFormat):
     def representable_in(self, x: RealFloat | Float) -> bool:
         match x:
             case Float():
-                if x.isinf and not self.enable_inf:
-                    return False
-                if x.isnan and self.nan_kind == EFloatNanKind.NONE:
-                    return False
+                # infinities and NaN have their own codes: whether they are
+                # representable does not depend on the finite values
+                if x.isinf:
+                    return self.enable_inf
+                if x.isnan:
+                    return self.nan_kind != EFloatNanKind.NONE
             case RealFloat():
                 pass
             case _:
